@@ -25,8 +25,8 @@
 (* both Go parsers do not wrap around).  The defects those commits         *)
 (* repaired (KF-C10-1a/1b/1c, -2, -3, -5, -6) are kept as HISTORY          *)
 (* operators with checkable lemmas; no invariant has an exclusion.         *)
-(* (KF-C10-4, the lenient stream name of loadManifest, concerns malformed  *)
-(* text and lives in ManifestContract!MustReject, not in these models.)    *)
+(* ecab3b5 (loadManifest checks the stream name: KF-C10-4, fixed;          *)
+(* StreamNameChecks).                                                      *)
 (***************************************************************************)
 EXTENDS Manifest, TLC, Json, IOUtils
 
@@ -231,17 +231,7 @@ GoManEscape(n) == LET f(c) == IF c <= 32 \/ c = BS THEN Oct3(c) ELSE <<c>> IN Ma
 OldGoManEscape(n) == LET f(c) == IF c <= 32 THEN Oct3(c) ELSE <<c>> IN MapBytes(n, f)           \* HISTORY: before bc06505 (KF-C10-2, fixed)
 \* manifestEscape (since 6bfe9ac): control codes and space, DEL, ':' and '\', and every byte that is not part of
 \* a valid UTF-8 sequence (utf8.DecodeRuneInString returns RuneError, 1) are written as \ooo
-Cont(c) == c >= 128 /\ c <= 191
-Utf8Len(n, i) ==                                   \* length of the valid UTF-8 sequence starting at n[i], 0 if none
-    LET c == n[i]
-        at(k) == IF i + k <= Len(n) THEN n[i + k] ELSE 0
-    IN IF c < 128 THEN 1
-       ELSE IF c >= 194 /\ c <= 223 /\ Cont(at(1)) THEN 2
-       ELSE IF c >= 224 /\ c <= 239 /\ Cont(at(1)) /\ Cont(at(2))
-               /\ (c = 224 => at(1) >= 160) /\ (c = 237 => at(1) <= 159) THEN 3
-       ELSE IF c >= 240 /\ c <= 244 /\ Cont(at(1)) /\ Cont(at(2)) /\ Cont(at(3))
-               /\ (c = 240 => at(1) >= 144) /\ (c = 244 => at(1) <= 143) THEN 4
-       ELSE 0
+\* (Cont, Utf8Len: Manifest.tla)
 RECURSIVE GoFsEscFrom(_, _)
 GoFsEscFrom(n, i) ==
     IF i > Len(n) THEN <<>>
@@ -432,6 +422,14 @@ RangeChecksExact == \A total \in 0 .. W - 1 : \A pos \in 0 .. W - 1 : \A len \in
     /\ GoFsRangeReject(pos, len, total) <=> (pos + len > total)
 OldRangeChecksWrong == /\ \E total, pos, len \in 0 .. W - 1 : pos + len > total /\ ~OldGoManRangeReject(pos, len, total)
                        /\ \E total, pos, len \in 0 .. W - 1 : pos + len > total /\ ~OldGoFsRangeReject(pos, len, total)
+
+\* Both Go parsers accept a first token as stream name iff, unescaped, it is "." or starts with "./"
+\* (parseManifestStream always did; loadManifest since ecab3b5 - KF-C10-4, fixed)
+StreamNameAccepted(t, unesc(_)) == LET u == unesc(t) IN u = <<DOT>> \/ (Len(u) >= 2 /\ u[1] = DOT /\ u[2] = SL)
+StreamNameChecks ==
+    /\ \A t \in StreamNames : StreamNameAccepted(t, GoFsUnescape) /\ StreamNameAccepted(t, GoManUnescape)
+    /\ \A t \in {<<100, 52, 49>>, <<DOT, DOT>>, <<SL, 97>>, <<97>>, <<DOT, 97>>} :      \* a locator-like token, "..", "/a", "a", ".a"
+           ~StreamNameAccepted(t, GoFsUnescape) /\ ~StreamNameAccepted(t, GoManUnescape)
 
 \* The one place where the codecs disagree and the format document decides nothing (see ManifestContract,
 \* "silent"): two consecutive backslashes in manifest text.  Recorded so that a change of either reading shows.
